@@ -30,7 +30,7 @@ RULE = ('Tables over the configured output list restricted to what can be an inp
         'date-times after parsing both sides). Unblocked files that look blocked (0x40 0x40 at bytes 1012-1013 and 2026-2027, from long runs of the 0x40 character in DE72) through the command entry points. Tables of >= 1100 rows (generated rows repeated) go through the same comparison. Non-trivial = >= 2 rows or a cell with a CSV metacharacter; distinct by digest.')
 ASSUMPTIONS = ['an empty input cell means "absent"; the output may hold a derived value there (e.g. DE48 built from PDS columns)',
                'cells contain no control characters (CSV is a text format; a bare CR cannot survive lineterminator="\\n")',
-               'python-dateutil is installed, so date cells go through dateutil.parser.parse',
+               'date cells are ISO 8601 (blank or T between date and time): what dateutil.parser.parse and, when python-dateutil is absent (a quarter of the tasks block its import), datetime.fromisoformat both read',
                'CARDUTIL_CONFIG is not set in the environment of the check']
 
 os.environ.pop('CARDUTIL_CONFIG', None)
